@@ -644,7 +644,8 @@ class Interp:
             flip = True
         cur = st.cons.get(key)
         if cur is None:
-            cur = frozenset("<=>") & _lattice_fact(key[0], key[1])
+            # the same pure term on both sides denotes the same value
+            cur = frozenset("=") if a == b else frozenset("<=>") & _lattice_fact(key[0], key[1])
         sat = {"Eq": "=", "Ne": "<>", "Lt": "<", "Le": "<=", "Gt": ">", "Ge": ">="}[op]
         if flip:
             sat = sat.translate(str.maketrans("<>", "><"))
@@ -1021,6 +1022,10 @@ class Interp:
                     continue
                 return self._after_prim(st, fr, res, dest, t.get("t"), t.get("u"), floor, outcomes)
         nm = resolved or declared
+        if nm.endswith("::precondition_check"):
+            # debug-build check of an unsafe function's precondition (assert_unsafe_precondition!): violating it is
+            # undefined behaviour in every build, it is not a panic path of the program
+            return self._after_prim(st, fr, [(st, "ret", UNIT)], dest, t.get("t"), t.get("u"), floor, outcomes)
         if nm.startswith(("core::fmt::", "<core::fmt::", "alloc::fmt::")):
             # message formatting on panic paths: pure, value irrelevant
             return self._after_prim(st, fr, [(st, "ret", TOP)], dest, t.get("t"), t.get("u"), floor, outcomes)
@@ -1381,6 +1386,12 @@ BASE_PRIMS = {
     "core::ptr::const_ptr::cast_mut": p_identity,
     "core::ptr::mut_ptr::cast": p_identity,
     "core::ptr::const_ptr::cast": p_identity,
+    "core::ptr::from_ref": p_identity,
+    "core::ptr::from_mut": p_identity,
+    "core::ptr::non_null::NonNull::from_ref": p_identity,
+    "core::ptr::non_null::NonNull::from_mut": p_identity,
+    "<core::ptr::non_null::NonNull as core::convert::From<&T>>::from": p_identity,
+    "<core::ptr::non_null::NonNull as core::convert::From<&mut T>>::from": p_identity,
     "core::mem::replace": p_mem_replace,
     "core::mem::forget": p_forget,
     "core::option::Option::take": p_option_default_take,
